@@ -222,7 +222,7 @@ static void run() {
     size_t maxlen = a.thorough() ? 10 : 8;
     vp::stats().rule = vp::fmt("enum: all strings of length <= %zu over {END, ESC, ESC_END, ESC_ESC, 'A'} as payloads (round trip, structure, bound, concatenation), as raw decoder input "
                                "(per-call reference at frame boundaries), as garbage prefixes before END + 3 frames (3 payload triples) and with source/sink error injection at every position "
-                               "(lengths <= 5); classic and start-of-frame mode; octet- and chunk-style endpoints; plus random full-alphabet payloads up to 1 KiB", maxlen);
+                               "(lengths <= 5); classic and start-of-frame mode; octet- and chunk-style endpoints; every 1- and 2-octet payload and raw input over all 256 octet values, ESC followed by every octet; plus random full-alphabet payloads up to 1 KiB", maxlen);
     vp::stats().exhaustive = true;
     static const uint8_t ALPHA[5] = {END, ESC, ESC_END, ESC_ESC, 'A'};
     uint64_t idx = 0;
@@ -244,6 +244,21 @@ static void run() {
             if (vp::want_sample()) vp::sample(ser({'g', false, kinds, s, (int)(code % 3)}));
             if (vp::too_many_failures()) return;
         }
+    }
+    // the full octet alphabet at the smallest scope: every 1- and 2-octet payload, every raw input "x y END" and "ESC x END"
+    for (unsigned x = 0; x < 256; x++) {
+        if (x % a.nshards != a.shard) continue;
+        for (int sof = 0; sof < 2; sof++) {
+            run_case({'p', (bool)sof, (int)(x % 4), Bytes{(uint8_t)x}, 0});
+            run_case({'r', (bool)sof, (int)((x + 1) % 4), Bytes{ESC, (uint8_t)x, END}, 0});
+            run_case({'r', (bool)sof, (int)((x + 2) % 4), Bytes{END, ESC, (uint8_t)x, 'B', END, 'C', END}, 0});
+            run_case({'g', (bool)sof, (int)((x + 3) % 4), Bytes{'A', ESC, (uint8_t)x}, (int)(x % 3)});
+            for (unsigned y = 0; y < 256; y++) {
+                run_case({'p', (bool)sof, (int)((x + y) % 4), Bytes{(uint8_t)x, (uint8_t)y}, 0});
+                if (sof == 0) run_case({'r', false, (int)((x + y) % 4), Bytes{(uint8_t)x, (uint8_t)y, END}, 0});
+            }
+        }
+        vp::nontrivial(vp::mix(x, 424242)); vp::cls("full-alphabet-1-2-octets", 2 * (4 + 256) + 256);
     }
     // random payloads, full alphabet, up to 1 KiB
     vp::Rng rng(a.seed * 6151 + a.shard);
